@@ -94,6 +94,15 @@ def _analytic(name="A"):
     return AnalyticDiscipline({"y": "2*x+3*p**2+x*p", "z": "x-p"}, name=name)
 
 
+def _analytic3():
+    """Expressions of three inputs with distinct roles (an argument order mistake changes the value)."""
+    from gemseo.disciplines.analytic import AnalyticDiscipline
+
+    d = AnalyticDiscipline({"y": "2*x + 3*p**2 - q + x*p", "z": "x - 4*p + q/7", "w": "q*x - p"}, name="A3")
+    d.io.input_grammar.defaults["q"] = array([0.625])
+    return d
+
+
 def _abc():
     from gemseo.disciplines.analytic import AnalyticDiscipline
 
@@ -312,7 +321,7 @@ def catalogue():
 
     E = []
     # --- harness-supplied constructors
-    E.append(Entry("AnalyticDiscipline", _analytic, **_ap(pvals=(0.0, 0.75))))
+    E.append(Entry("AnalyticDiscipline", _analytic3, **_ap(pvals=(0.0, 0.75))))
     E.append(Entry("AutoPyDiscipline", lambda: AutoPyDiscipline(py_func, py_jac), xname="x", pname="p",
                    xvals=[one(0.5), one(1.25)], pvals=[one(1.0), one(0.75)], grammars=(JSON,)))
     E.append(Entry("ArrayBasedFunctionDiscipline",
